@@ -288,6 +288,7 @@ Lemma good_deserializePrefix : forall fuel K C b pl afi, good fuel K C 0 top (de
 Proof.
   intros. unfold deserializePrefix.
   gbind ltac:(apply good_guard). intros _ _.
+  gbind ltac:(apply good_guard). intros _ _.
   destruct (afi =? 1).
   - apply good_ret. exact I.
   - destruct (ipFromBytes _).
@@ -338,7 +339,7 @@ Proof.
   cbn [decodeNLRIs]. destruct (p <? length).
   - eapply good_bind_strict with (c2 := 0); [apply good_decodeNLRI | lia | | shelve].
     intros [n c] _. apply IH.
-  - apply good_ret. exact I.
+  - gbind ltac:(apply good_guard). intros u _. apply good_ret. exact I.
   Unshelve. all: lia.
 Qed.
 
@@ -432,7 +433,8 @@ Lemma good_decodeASPath : forall fuel L asnLen p acc,
   good fuel 3 65535 0 top (decodeASPath fuel L asnLen p acc).
 Proof.
   induction fuel as [|f IH]; intros; [apply good_fuel0|].
-  cbn [decodeASPath]. destruct (p <? L); [|apply good_ret; exact I].
+  cbn [decodeASPath]. destruct (p <? L);
+    [|gbind ltac:(apply good_guard); intros u _; apply good_ret; exact I].
   eapply good_bind_strict with (c2 := 0); [apply good_readByte | lia | | shelve].
   intros ty _.
   gbyte. intros count Hc. cbv beta zeta in *.
@@ -472,6 +474,7 @@ Qed.
 Lemma good_decodeU32Dump : forall fuel K C L, good fuel K C 0 top (decodeU32Dump L).
 Proof.
   intros. unfold decodeU32Dump.
+  gbind ltac:(apply good_guard). intros u0 _.
   gbind ltac:(apply good_read4). intros v _.
   gbind ltac:(apply good_dumpN). intros u _.
   apply good_ret. exact I.
@@ -489,14 +492,19 @@ Lemma good_decodeAttrValue : forall fuel o ty L, L < 65536 ->
 Proof.
   intros fuel o ty L HL. unfold decodeAttrValue.
   repeat match goal with |- good _ _ _ _ _ (if ?c then _ else _) => destruct c end.
-  - gbyte. intros v _. gbind ltac:(apply good_dumpN). intros u _. apply good_ret. exact I.
+  - gbind ltac:(apply good_guard). intros u0 _.
+    gbyte. intros v _. gbind ltac:(apply good_dumpN). intros u _. apply good_ret. exact I.
   - apply good_decodeASPath.
-  - gbind ltac:(apply good_readU32). intros v _. apply good_ret. exact I.
-  - gbind ltac:(apply good_readU32). intros v _. apply good_ret. exact I.
-  - gbind ltac:(apply good_readU32). intros v _. apply good_ret. exact I.
-  - gbind ltac:(apply good_readU16). intros a _. gbind ltac:(apply good_readU32). intros ad _.
+  - gbind ltac:(apply good_guard). intros u0 _.
+    gbind ltac:(apply good_readU32). intros v _. apply good_ret. exact I.
+  - gbind ltac:(apply good_guard). intros u0 _.
+    gbind ltac:(apply good_readU32). intros v _. apply good_ret. exact I.
+  - gbind ltac:(apply good_guard). intros u0 _.
+    gbind ltac:(apply good_readU32). intros v _. apply good_ret. exact I.
+  - gbind ltac:(apply good_guard). intros u0 _.
+    gbind ltac:(apply good_readU16). intros a _. gbind ltac:(apply good_readU32). intros ad _.
     gbind ltac:(apply good_dumpN). intros u _. apply good_ret. exact I.
-  - apply good_ret. exact I.
+  - gbind ltac:(apply good_guard). intros u0 _. apply good_ret. exact I.
   - gbind ltac:(apply good_decodeU32List; exact HL). intros l _. apply good_ret. exact I.
   - apply good_decodeU32Dump.
   - gbind ltac:(apply good_decodeU32List; exact HL). intros l _. apply good_ret. exact I.
@@ -547,9 +555,11 @@ Proof.
   gbind ltac:(apply good_readU16). intros wlen _.
   gbind ltac:(apply good_lift; apply good_decodeNLRIs). intros wd _.
   gbind ltac:(apply good_readU16). intros tpal _.
+  gbind ltac:(apply good_guard). intros u0 _.
   gbind ltac:(apply good_decodePathAttrs). intros attrs _. cbv zeta.
   destruct (0 <? _).
-  - gbind ltac:(apply good_lift; apply good_decodeNLRIs). intros nl _. apply good_ret. exact I.
+  - gbind ltac:(apply good_lift; apply good_decodeNLRIs). intros nl _.
+    gbind ltac:(apply good_guard). intros u1 _. apply good_ret. exact I.
   - apply good_ret. exact I.
   Unshelve. all: lia.
 Qed.
